@@ -19,6 +19,7 @@ BINOPS = {  # spelling -> (Instruction, priority class)
     '==': ('Equal', 'eq'), '!=': ('NotEqual', 'eq'), '#=': ('TypeEqual', 'eq'),
     '<': ('LessThan', 'cmp'), '<=': ('LessThanOrEqual', 'cmp'), '>': ('GreaterThan', 'cmp'), '>=': ('GreaterThanOrEqual', 'cmp'),
     '<>': ('Concat', 'concat'), '..': ('MakeRange', 'range'), '<~': ('Apply', 'apply'), '.': ('Access', 'access'),
+    '~': ('PartialApply', 'partial'),
 }
 PREFIX = {'--': ('Opposite', 'unary75'), '++': ('AbsoluteValue', 'unary75'), '!': ('BitwiseNot', 'unary75'), '!!': ('Not', 'not'),
           '??': ('Tis', 'not'), '#': ('TypeOf', 'typeof'), '_.': ('AccessLeftInternal', 'leftinternal')}
@@ -345,6 +346,91 @@ def features(n, acc=None):
 
 
 # ---- small-exhaustive enumeration -------------------------------------------------------------------------------
+
+def _cond(test, body, on_true=True): return Node('cond', on_true, [test, body], 'cond')
+def _chain(arms, final): return Node('chain', (list(arms), final), [], 'else')
+def _and(l, r): return Node('and', None, [l, r], 'and')
+def _or(l, r): return Node('or', None, [l, r], 'or')
+def _nested(e): return Node('nested', None, [e], 'nested')
+
+
+def logic_shapes():
+    """logical operators, conditionals and else-chains whose out-of-line operands / arms END in every kind of
+    instruction (atom, `??`, `!!`, arithmetic, the re-join of an inner else-chain or logical operator, a call, a list):
+    the code that decides which terminator (Tis / JumpTo / EndExpression) a separately emitted root still needs sees every
+    combination of (outer construct, last instruction of the operand) once, with left operands that select either side"""
+    def tails():
+        yield 'atom', lambda: lit_int(20)
+        yield 'tis', lambda: prefix('??', lit_int(20))
+        yield 'not', lambda: prefix('!!', lit_int(20))
+        yield 'arith', lambda: binop('+', INPUT(), lit_int(1))
+        yield 'chain-arm', lambda: _chain([_cond(lit_int(10), lit_int(20))], lit_int(30))
+        yield 'chain-arm/final-tis', lambda: _chain([_cond(lit_int(10), lit_int(20))], prefix('??', lit_int(30)))
+        yield 'chain-final-tis', lambda: _chain([_cond(FALSE(), lit_int(20))], prefix('??', lit_int(30)))
+        yield 'chain-arm-tis/final', lambda: _chain([_cond(lit_int(10), prefix('??', lit_int(20)))], lit_int(30))
+        yield 'chain-final', lambda: _chain([_cond(UNIT(), lit_int(20))], lit_int(30))
+        yield 'chain3', lambda: _chain([_cond(FALSE(), lit_int(1)), _cond(lit_int(2), lit_int(20), False), _cond(lit_int(3), lit_int(21))], prefix('!!', lit_int(30)))
+        yield 'and', lambda: _and(lit_int(5), lit_int(20))
+        yield 'or', lambda: _or(FALSE(), lit_int(20))
+        yield 'and-tis', lambda: _and(lit_int(5), prefix('??', lit_int(20)))
+        yield 'cond', lambda: _cond(lit_int(10), lit_int(20))
+        yield 'cond-false', lambda: _cond(FALSE(), lit_int(20))
+        yield 'unless', lambda: _cond(FALSE(), lit_int(20), False)
+        yield 'call', lambda: suffix('~~', _nested(lit_int(20)))
+        yield 'slist', lambda: Node('slist', None, [lit_int(1), lit_int(2)], 'slist')
+        yield 'pair', lambda: Node('pair', None, [lit_int(1), lit_int(2)], 'pair')
+        yield 'ident', lambda: Node('id', 'x')          # its evaluation is a host call: seen in the trace iff it is evaluated
+        yield 'ident-arith', lambda: binop('+', Node('id', 'count'), lit_int(1))
+    lefts = [('truthy', lambda: lit_int(5)), ('false', FALSE), ('unit', UNIT), ('input', INPUT)]
+    for tn, tk in tails():
+        for ln, lk in lefts:
+            yield f'and/{ln}/{tn}', fix_nodes(_and(lk(), tk()))
+            yield f'or/{ln}/{tn}', fix_nodes(_or(lk(), tk()))
+            yield f'if/{ln}/{tn}', fix_nodes(_cond(lk(), tk()))
+            yield f'unless/{ln}/{tn}', fix_nodes(_cond(lk(), tk(), False))
+            yield f'chain-arm/{ln}/{tn}', fix_nodes(_chain([_cond(lk(), tk())], lit_int(7)))
+            yield f'chain-final/{ln}/{tn}', fix_nodes(_chain([_cond(lk(), lit_int(7))], tk()))
+            yield f'chain-mid/{ln}/{tn}', fix_nodes(_chain([_cond(FALSE(), lit_int(6)), _cond(lk(), tk())], lit_int(9)))
+        yield f'and-or/{tn}', fix_nodes(_and(lit_int(5), _or(FALSE(), tk())))
+        yield f'or-and/{tn}', fix_nodes(_or(FALSE(), _and(lit_int(5), tk())))
+        yield f'if-and/{tn}', fix_nodes(_cond(lit_int(5), _and(lit_int(5), tk())))
+        yield f'and-if/{tn}', fix_nodes(_and(lit_int(5), _cond(lit_int(5), tk())))
+        yield f'list-of/{tn}', fix_nodes(Node('clist', None, [_and(lit_int(5), tk()), _or(FALSE(), tk())], 'clist'))
+        yield f'body/{tn}', fix_nodes(binop('<~', _nested(_and(INPUT(), tk())), lit_int(3)))
+
+
+def loop_shapes():
+    """bounded reapply loops whose `^~` sits in every nesting of tail positions up to depth 3 (arm of a conditional, arm /
+    final arm of an else-chain, right operand of `&&` / `||`), at top level and inside a nested body; every guard is monotone
+    in `$`, so each loop ends after at most a dozen iterations. Which expression a `^~` restarts is decided by the jump
+    entry its root was given: a wrong entry shows as a different value or as a loop that does not end."""
+    def lt(k): return binop('<', INPUT(), lit_int(k))
+    def ge(k): return binop('>=', INPUT(), lit_int(k))
+    again = lambda: Node('reapply', None, [binop('+', INPUT(), lit_int(1))], 'reapply')
+    ctxs = [
+        ('if', lambda t, k: _cond(lt(k), t)),
+        ('chain-arm', lambda t, k: _chain([_cond(lt(k), t)], binop('*', INPUT(), lit_int(2)))),
+        ('chain-final', lambda t, k: _chain([_cond(ge(k), binop('*', INPUT(), lit_int(3)))], t)),
+        ('chain-mid', lambda t, k: _chain([_cond(ge(k + 20), lit_int(1)), _cond(lt(k), t)], lit_int(0))),
+        ('and', lambda t, k: _and(lt(k), t)),
+        ('or', lambda t, k: _or(ge(k), t)),
+    ]
+    def nest(depth, ks):
+        if depth == 0:
+            yield '', again()
+            return
+        for name, mk in ctxs:
+            for sub, t in nest(depth - 1, ks[1:]):
+                yield name + ('>' + sub if sub else ''), mk(t, ks[0])
+    for depth, ks in ((1, [6]), (2, [9, 12]), (2, [12, 9]), (3, [9, 12, 7])):
+        for name, t in nest(depth, ks):
+            yield f'loop/{name}/{ks}', fix_nodes(t)
+            yield f'loop-body/{name}/{ks}', fix_nodes(binop('<~', _nested(t), lit_int(4)))
+            yield f'loop-in-list/{name}/{ks}', fix_nodes(Node('clist', None, [lit_int(1), binop('<~', _nested(t), lit_int(5))], 'clist'))
+
+
+LOOP_INPUTS = ['(i 0)', '(i 5)', '(i 7)', '(i 8)', '(i 11)', '(i 13)']
+
 
 def operator_pairs():
     """every ordered pair (outer operator, inner operator) of the core language with the inner one in every operand
